@@ -89,6 +89,18 @@ CHECKS = {
         "end cannot be built here.",
         "5/C01",
     ),
+    "C05": (
+        "exploration",
+        "history-invariant testing on an in-memory server connection under a deterministic virtual-time loop: "
+        "Hypothesis-generated pipelines x malformed/hostile elements x segmentation and burst plans x handler "
+        "behaviours x peer disconnect points; independent response framer as oracle",
+        "Each generated connection history is run against a real RequestHandler on an in-memory transport; the bytes the "
+        "server wrote are split by an independent framer and checked for one well-formed response per request in "
+        "order, a 4xx+close for unparsable input, no stuck-open state, no exception in the loop and a bounded queue.",
+        "Trusts vlib/memnet.py (transport model), vlib/detloop.py (virtual time, asyncio FIFO order), the response framer "
+        "and strict reader in vlib/refhttp.py.",
+        "5/C05",
+    ),
 }
 
 REASON_PENDING = "check not built yet in this round (design in DESIGN.md section 5); not claimed until it runs quietly on the unchanged tree"
